@@ -31,6 +31,7 @@ theorem JInv.sent {c d : Cfg} (h : JInv c) (h1 : evK d = evK c) (h2 : d.joins = 
   · rw [h2]; exact ht
   · rw [h2]; exact ho
   · rw [h1, h2]; exact h.jne
+  · rw [h2]; exact h.live
 
 /-- an event that goes on from a timer is accepted: the timer is armed -/
 theorem flat_arm {N : Nat} {c : Cfg} (h : PInv N c) {l1 l2 : List QEv} {m m' : QEv} (he : c.evq = l1 ++ m :: l2)
